@@ -1084,6 +1084,20 @@ func (kcp *KCP) SetMtu(mtu int) int {
 		return -1
 	}
 
+	// segments that are already queued or in flight were cut for the current MSS and
+	// cannot be re-fragmented: an MTU they do not fit into cannot be honoured
+	mss := mtu - IKCP_OVERHEAD
+	for seg := range kcp.snd_buf.ForEach {
+		if len(seg.data) > mss {
+			return -1
+		}
+	}
+	for seg := range kcp.snd_queue.ForEach {
+		if len(seg.data) > mss {
+			return -1
+		}
+	}
+
 	kcp.mtu = uint32(mtu)
 	kcp.mss = kcp.mtu - IKCP_OVERHEAD
 	kcp.buffer = make([]byte, (mtu+IKCP_OVERHEAD)*3)
